@@ -352,3 +352,95 @@ func VerifC01Strings() {
 	vAssert(vStrEq(string(b3.Bytes()), string(b2.Bytes())), "C01.str.reserialize: the parsed profile does not re-serialize to identical bytes")
 	vObserve(len(buf.Bytes()))
 }
+
+func init() { vRegister("VerifC01NumLabels", VerifC01NumLabels) }
+
+// VerifC01NumLabels: a numeric label with 1-3 values, each zero or not and
+// each with or without a unit, survives write-then-parse: only a zero value
+// without unit is dropped (proto3 cannot represent it), the units stay
+// aligned with their values, and what was parsed can be written again to the
+// same bytes.
+func VerifC01NumLabels() {
+	k := 1 + vChoice("k", vBound("c01.numvalues", 3))
+	units := []string{"", "kb", "b"}
+	var vals []int64
+	var us []string
+	for i := 0; i < k; i++ {
+		t := strconv.Itoa(i)
+		v := vInt64("v" + t)
+		vAssume(v >= 0)
+		vAssume(v <= 127)
+		vals = append(vals, v)
+		us = append(us, units[vChoice("u"+t, 3)])
+	}
+	m := &Mapping{ID: 1, Start: 0x1000, Limit: 0x2000, File: "bin"}
+	f := &Function{ID: 1, Name: "fn", SystemName: "fn", Filename: "f.go"}
+	l := &Location{ID: 1, Mapping: m, Address: 0x1100, Line: []Line{{Function: f, Line: 5}}}
+	s0 := &Sample{Location: []*Location{l}, Value: []int64{7}, NumLabel: map[string][]int64{"bytes": vals}}
+	hasUnit := false
+	for _, u := range us {
+		if u != "" {
+			hasUnit = true
+		}
+	}
+	if hasUnit || vChoice("explicit-empty-units", 2) == 1 {
+		s0.NumUnit = map[string][]string{"bytes": us}
+	}
+	p := &Profile{SampleType: []*ValueType{{Type: "st", Unit: "su"}}, PeriodType: &ValueType{Type: "pt", Unit: "pu"}, Period: 1,
+		Mapping: []*Mapping{m}, Function: []*Function{f}, Location: []*Location{l}, Sample: []*Sample{s0}}
+	var buf bytes.Buffer
+	if err := p.WriteUncompressed(&buf); err != nil {
+		vAssert(false, "C01.num.write: writing a valid profile failed")
+		return
+	}
+	q, err := ParseUncompressed(buf.Bytes())
+	vReach("C01.num:parsed")
+	if err != nil || len(q.Sample) != 1 {
+		vAssert(false, "C01.num.parse: parsing the bytes just written failed")
+		return
+	}
+	// expected pairs: all but (0, "")
+	type pair struct {
+		v int64
+		u string
+	}
+	var want []pair
+	for i := range vals {
+		if vals[i] == 0 && us[i] == "" {
+			continue
+		}
+		want = append(want, pair{vals[i], us[i]})
+	}
+	gv, gu := q.Sample[0].NumLabel["bytes"], q.Sample[0].NumUnit["bytes"]
+	if len(gv) != len(want) {
+		vAssert(false, "C01.num.values: the numeric label's values changed (only zero values without unit may be dropped)")
+		return
+	}
+	if len(gu) != 0 && len(gu) != len(gv) {
+		vAssert(false, "C01.num.aligned: the parsed profile has a different number of units than values for a numeric label")
+		return
+	}
+	for i, w := range want {
+		u := ""
+		if len(gu) != 0 {
+			u = gu[i]
+		}
+		vAssert(vAnd(gv[i] == w.v, u == w.u), "C01.num.pair: a numeric label value or its unit changed")
+	}
+	// what the parser returned can be copied and written again, to the same bytes
+	var b2, b3 bytes.Buffer
+	if err := q.WriteUncompressed(&b2); err != nil {
+		vAssert(false, "C01.num.rewrite: the parsed profile cannot be written")
+		return
+	}
+	q2, err := ParseUncompressed(b2.Bytes())
+	if err != nil {
+		vAssert(false, "C01.num.reparse: the re-serialized profile does not parse")
+		return
+	}
+	q2.WriteUncompressed(&b3)
+	vAssert(vStrEq(string(b2.Bytes()), string(b3.Bytes())), "C01.num.reserialize: the parsed profile does not re-serialize to identical bytes")
+	c := q.Copy()
+	vAssert(c != nil && c.CheckValid() == nil, "C01.num.copy: the parsed profile cannot be copied")
+	vObserve(len(gv), len(gu))
+}
